@@ -288,6 +288,26 @@ func (p *Program) FuncByName(rel, name string) *Func {
 			return f
 		}
 	}
+	// `(*T).m` asked for, and m is now a method-like function `m(…, x *T, …)`: its view, in which x is the receiver
+	if strings.HasPrefix(name, "(*") && strings.Contains(name, ").") {
+		tname := name[2:strings.Index(name, ").")]
+		mname := name[strings.Index(name, ").")+2:]
+		for _, f := range p.Funcs() {
+			if f.Decl == nil || f.Decl.Recv != nil || RelPkg(f.Pkg.PkgPath) != rel || f.Decl.Name.Name != mname || f.Obj() == nil {
+				continue
+			}
+			k := MethodLikeFunc(f.Pkg.Types, f.Obj())
+			if k < 0 {
+				continue
+			}
+			sig := f.Obj().Type().(*types.Signature)
+			if pt, ok := sig.Params().At(k).Type().(*types.Pointer); ok {
+				if nt, ok := types.Unalias(pt.Elem()).(*types.Named); ok && nt.Obj().Name() == tname {
+					return p.Flatten(f)
+				}
+			}
+		}
+	}
 	return nil
 }
 
